@@ -195,6 +195,11 @@ def build(spec, variant: int = 0, _rng=None):
         if t == "ndT" and a.ndim >= 2:
             a = np.ascontiguousarray(a.T).T  # same content, Fortran-ordered view
         return a
+    if t == "ndTT":
+        # the flat values laid out for the *reversed* shape and viewed transposed: same shape, dtype and raw
+        # buffer as ["nd", dtype, shape, flat], other logical content (unless symmetric), non-contiguous
+        import numpy as np
+        return np.array(spec[3], dtype=spec[1]).reshape(list(reversed(spec[2]))).T
     if t == "nds":
         import numpy as np
         return np.dtype(spec[1]).type(spec[2])
@@ -243,6 +248,10 @@ def _canon(spec):
     if t in ("nd", "ndT"):
         import numpy as np
         a = np.array(spec[3], dtype=spec[1]).reshape(spec[2])
+        return ["nd", a.dtype.str, list(a.shape), [repr(x) for x in a.ravel().tolist()]]
+    if t == "ndTT":
+        import numpy as np
+        a = np.array(spec[3], dtype=spec[1]).reshape(list(reversed(spec[2]))).T
         return ["nd", a.dtype.str, list(a.shape), [repr(x) for x in a.ravel().tolist()]]
     if t == "nds":
         import numpy as np
@@ -556,6 +565,10 @@ def mutate_node(rng, s):
             v2[rng.randrange(n)] = (not v2[0]) if dt == "bool" else (v2[0] + 1)
             if v2 != vals:
                 c += [("np-content", [t, dt, shape, v2])]
+        if t == "nd" and len(shape) == 2 and min(shape) >= 2:
+            tw = np.array(vals, dtype=dt).reshape(list(reversed(shape))).T
+            if tw.ravel().tolist() != np.array(vals, dtype=dt).reshape(shape).ravel().tolist():
+                c += [("np-layout", ["ndTT", dt, shape, vals])]  # same buffer, shape, dtype; other logical content
         if t == "nd" and len(shape) <= 1:
             c += [("container-kind", ["list", [["bool", bool(x)] if dt == "bool" else
                                                ["float", repr(float(x))] if dt.startswith("float") else
@@ -643,7 +656,7 @@ def _map(spec, f):
 
 def _erase_numpy(s):
     # what bytes_repr_numpy keeps: python class, element count, raw C-order bytes
-    if s[0] in ("nd", "ndT", "nds"):
+    if s[0] in ("nd", "ndT", "ndTT", "nds"):
         v = build(s)
         return ["npraw", type(v).__name__, int(v.size), v.tobytes(order="C").hex() if v.dtype != object else "obj"]
     return s
